@@ -10,7 +10,7 @@
                 SetInline / CallInline : if that failed, run the callback on the consumer's thread
                 Wait               : attach the stack event as callback (same two operations), sleep until the
                                      producer's exchange has handed the event back and signalled it
-                Ready / Get const& : one load; the slot is read if the load did not return Empty
+                Ready / Get const& : one load; the slot is read if the load returned Result
                 Get&&              : Wait, move the result out, release the state
      continuation (ResultCore::Impl / Core::Impl / Drop::Impl): moves the result out of the source state
                 and drops the reference to it (the state is freed; ~ResultCore reloads the word, which is
@@ -140,10 +140,10 @@ Definition step_c (s : st) (e : ev) : option st :=
       match cpc s with
       | CPeek =>
           Some {| kd := kd s; w := w s; is_event := is_event s; slot := slot s; alive := alive s; ppc := ppc s;
-                  cpc := (match v with WE => C0 | _ => CPeekHit end);
+                  cpc := (match v with WR => CPeekHit | _ => C0 end);
                   signalled := signalled s; waited := waited s; tokens := tokens s;
                   taken := taken s; cbs := cbs s; gots := gots s;
-                  readys := readys s ++ [(negb (word_eqb v WE), match rd s with Some _ => true | None => false end)];
+                  readys := readys s ++ [(word_eqb v WR, match rd s with Some _ => true | None => false end)];
                   frees := frees s |}
       | CW0 =>
           match v with
